@@ -34,4 +34,10 @@ def obligations(tier, seed=0):
     for s, t in [(a, b) for a in same[:8] for b in same[:8]]:
         for fn in ('<', '<=', '>', '>=', '==', '!=', 'in'):
             add(fn=fn, s=s, t=t, entry='op')
+    # an interval against a plain Python int whose mantissa is longer than iv.prec (the number denotes itself exactly)
+    for s in ([P(3, 3), P(3, 3)], [P(3, 2), P(3, 3)], [N(3, 3), P(3, 3)], [Z, P(3, 3)], [N(3, 3), N(3, 2)]):
+        for nbc in (6, 7):
+            for nneg in (0, 1):
+                for fn in ('<', '<=', '>', '>=', '==', '!='):
+                    obs.append((FI + 'iv_cmp_num', dict(fn=fn, s=s, nbc=nbc, nneg=nneg, prec=3)))
     return obs
